@@ -265,6 +265,53 @@ def install(seed, max_steps=3000000, max_virtual=3000.0):
 
     _saved.append((AR, '_set', orig_set))
     AR._set = set_
+
+    # who reports a failing call, and what the caller then fetches (vocabulary of Model/FirstFailure.lean): every look at the
+    # exception flag, every failure stored under a job id (with the identity of the exception object), every fetch
+    orig_thrown = WC.__dict__['exception_thrown']
+
+    def exception_thrown(self):
+        r = orig_thrown(self)
+        sim.S.rec('exc.look', bool(r))
+        return r
+
+    _saved.append((WC, 'exception_thrown', orig_thrown))
+    WC.exception_thrown = exception_thrown
+
+    def watch_attr(cls, attr, failed):
+        # `_set` is not atomic (it takes a lock first and sets an event afterwards, both scheduling points): what a reader sees
+        # changes at the assignment of the attribute that holds the exception, so that is where the store is recorded
+        key = '_sim_' + attr
+
+        def g(self):
+            return self.__dict__.get(key)
+
+        def s_(self, v):
+            self.__dict__[key] = v
+            if v is not None and failed(self):
+                sim.S.rec('exc.set', self.job_id, id(v), type(v).__name__)
+
+        _saved.append((cls, attr, _MISSING))
+        setattr(cls, attr, property(g, s_))
+
+    def wrap_fetch(cls):
+        o = cls.__dict__.get('get_exception')
+        if o is None:
+            return
+
+        def get_exception(self, _o=o):
+            sim.S.rec('exc.fetch-begin', self.job_id)
+            r = _o(self)
+            sim.S.rec('exc.fetch', self.job_id, id(r), type(r).__name__)
+            return r
+
+        _saved.append((cls, 'get_exception', o))
+        cls.get_exception = get_exception
+
+    watch_attr(mpire.async_result.UnorderedAsyncResultIterator, '_exception', lambda self: True)
+    watch_attr(AR, '_value', lambda self: self._success is False)
+    for cls in (mpire.async_result.UnorderedAsyncResultIterator, mpire.async_result.AsyncResultWithExceptionGetter, AR):
+        wrap_fetch(cls)
     return S
 
 
